@@ -1186,6 +1186,16 @@ SPECS = [
                      "s3_slice = (-1, np.linspace(width - 1, 0, col_num, dtype=int))",
                      "s4_slice = (np.linspace(height - 1, 0, row_num, dtype=int), 0)",
                      "return (s1_slice, s2_slice, s3_slice, s4_slice)"], owners=["C16"]),
+    dict(name="geos_nb_points", file="pyresample/geometry.py", func="AreaDefinition._get_geostationary_boundary_sides", mode="fragment",
+         params=[("vertices_per_side", opt(INT))], outputs=["vertices_per_side"], output_types={"vertices_per_side": INT},
+         select=_from_stmt("if vertices_per_side is None:\n    vertices_per_side = 50", upto="if coordinates == 'geographic':\n    x, y = get_geostationary_bounding_box_in_lonlats(self, nb_points=vertices_per_side)\nelse:\n    x, y = get_geostationary_bounding_box_in_proj_coords(self, nb_points=vertices_per_side)"),
+         owners=["C16"]),
+    dict(name="geos_side_step", file="pyresample/geometry.py", func="AreaDefinition._get_geostationary_boundary_sides", mode="fragment",
+         params=[("x.shape", tup(INT))], outputs=["side02_step"], output_types={"side02_step": INT},
+         select=_assignments_to("side02_step", guards=[
+             "sides_x = [x[slice(0, side02_step + 1)], x[slice(side02_step, side02_step + 1 + 1)], x[slice(side02_step + 1, None)], np.append(x[-1], x[0])]",
+             "sides_y = [y[slice(0, side02_step + 1)], y[slice(side02_step, side02_step + 1 + 1)], y[slice(side02_step + 1, None)], np.append(y[-1], y[0])]",
+             "return (sides_x, sides_y)"]), owners=["C16"]),
     # ---- C06 -----------------------------------------------------------------------------------
     dict(name="calc_abc", file="pyresample/bilinear/_base.py", func="_calc_abc",
          params=[("corner_points", tup(tup(RAT, RAT), tup(RAT, RAT), tup(RAT, RAT), tup(RAT, RAT))), ("out_y", RAT), ("out_x", RAT)],
